@@ -2126,7 +2126,8 @@ def setup_gets_the_validated_jobs_value(ctx, rid):
             l_ = op_local(t_["args"][1])
             pl_ = ba.resolve_ref(l_)
             if pl_ is not None:
-                checked.add(common.place_key(b, pl_) if pl_["p"] else cell(pl_["l"]))
+                pk_ = common.place_key(b, pl_)
+                checked.add(cell(pk_[0]) if not pk_[1] else pk_)
             checked.add(cell(l_))
     if not checked:
         raise AnchorError("%s: the range check of --jobs in %s not located" % (rid, b.key))
